@@ -1052,3 +1052,85 @@ def run_time_results(ctx, mods):
                                 f"{'the same object' if s1 != s0 else 'a freshly built equal time'} returns for .{name}: {str(s1 if s1 != s0 else s2)[:200]} instead of {str(s0)[:200]}",
                                 {"part": "G", "scale": scale, "shape": shape, "name": name, "writes": log})
     return n
+
+
+# ------------------------------------------------------------------------------------------------ H: time objects made from time objects
+# The D1 question for the time classes: an array made from a time array (view, transpose, reshape, ravel, copy, slices, ...)
+# must carry the epochs of its current contents whatever was indexed / computed on the source before (`t[i]`, `t.max`,
+# iteration, slices, masks, conversions).  Read: the two-part Julian dates and every scale conversion (type, format, shape,
+# bytes) and every format; compared exactly with the same construction without the earlier operations.
+
+
+def run_time_derivations(ctx, mods, thorough):
+    import copy as _copy
+
+    T, Time = mods[4], mods[5]
+    rng = ctx.rng
+    jd1 = np.array([2457754.5, 2457755.5, 2457790.5, 2457791.5])
+    jd2 = np.array([0.25, 0.5, 0.125, 0.75])
+    mask = np.array([True, False, True, False])
+    early = {
+        "t[1]": lambda t: t[1], "t[-1]": lambda t: t[-1], "t[np.int64(2)]": lambda t: t[np.int64(2)], "t.max": lambda t: t.max,
+        "t.min": lambda t: t.min, "t.mean": lambda t: t.mean, "t[1:3]": lambda t: t[1:3], "t[mask]": lambda t: t[mask],
+        "t[[0, 2]]": lambda t: t[[0, 2]], "for x in t": lambda t: [x for x in t], "t.tai": lambda t: t.tai, "t.mjd": lambda t: t.mjd,
+        "t.datetime": lambda t: t.datetime, "t[...]": lambda t: t[...], "t.T": lambda t: t.T, "t[1].tai": lambda t: t[1].tai,
+        "t.year": lambda t: t.year, "t.jd_frac": lambda t: t.jd_frac,
+    }
+    derive = {
+        "view": lambda t: t.view(), "T": lambda t: t.T, "reshape": lambda t: t.reshape(t.shape), "ravel": lambda t: t.ravel(),
+        "copy": lambda t: t.copy(), "copy.copy": lambda t: _copy.copy(t), "deepcopy": lambda t: _copy.deepcopy(t), "t[...]": lambda t: t[...],
+        "t[:]": lambda t: t[:], "t[0:2]": lambda t: t[0:2], "t[::2]": lambda t: t[::2], "flatten": lambda t: t.flatten(),
+        "squeeze": lambda t: np.squeeze(t), "asanyarray": lambda t: np.asanyarray(t), "t[mask]": lambda t: t[mask], "t[2]": lambda t: t[2],
+        "itself": lambda t: t,
+    }
+    fmts = sorted(T._FORMATS.get("TimeFormat", {}))
+    scales = ["utc", "tai", "gps", "tt", "tcg"]
+
+    def reads(q):
+        out = {}
+        for nm in ["jd1", "jd2"] + fmts:
+            try:
+                out[nm] = _tsnap(getattr(q, nm))
+            except Exception as e:  # noqa
+                out[nm] = ("ERR", type(e).__name__)
+        for sc in scales:
+            try:
+                r = getattr(q, sc)
+                out[sc] = (type(r).__name__, r.fmt, np.shape(r.jd1), np.asarray(r.jd1, dtype=float).tobytes(), np.asarray(r.jd2, dtype=float).tobytes(), _tsnap(r))
+            except Exception as e:  # noqa
+                out[sc] = ("ERR", type(e).__name__)
+        return out
+
+    n = 0
+    for fmt in ("jd", "datetime", "mjd"):
+        for scale in ("utc", "gps"):
+            def make(fmt=fmt, scale=scale):
+                t = Time(jd1.copy(), val2=jd2.copy(), fmt="jd", scale=scale)
+                return t if fmt == "jd" else Time(getattr(t, fmt), fmt=fmt, scale=scale)
+            plans = [(e,) for e in early]
+            pairs = [(a, b) for a in early for b in early]
+            plans += pairs if thorough else [rng.choice(pairs) for _ in range(40)]
+            for dname, dfn in derive.items():
+                try:
+                    base = reads(dfn(make()))
+                except Exception:
+                    continue
+                for plan in plans:
+                    t = make()
+                    try:
+                        for e in plan:
+                            early[e](t)
+                        got = reads(dfn(t))
+                    except Exception as e:  # noqa
+                        got = {"jd1": ("ERR", type(e).__name__)}
+                    n += 1
+                    ctx.case(["H", fmt, scale, dname, list(plan)], nontrivial=True)
+                    ctx.count(f"H:derivation:{dname}")
+                    bad = [k for k in base if got.get(k) != base[k]]
+                    if bad:
+                        k = bad[0]
+                        ctx.violate(f"time-derived-object-depends-on-history:{dname}",
+                                    f"{scale} time in format {fmt}: {'; '.join(plan)}; q = {dname}(t); q.{k} gave {str(got.get(k))[:160]} but {str(base[k])[:160]} "
+                                    f"without the earlier operations ({len(bad)} of {len(base)} reads differ)",
+                                    {"part": "H", "fmt": fmt, "scale": scale, "earlier": list(plan), "derivation": dname})
+    return n
